@@ -74,7 +74,8 @@ class BuiltinsMixin(AccessMixin):
         for name in ("len", "range", "reversed", "sum", "next", "hex", "isinstance", "getattr", "setattr",
                      "delattr", "hasattr", "callable", "vars", "print", "open", "min", "max", "enumerate",
                      "zip", "sorted", "iter", "any", "all", "abs", "ord", "chr", "repr", "super", "id",
-                     "issubclass", "format", "divmod", "round", "map", "filter", "property", "staticmethod", "classmethod", "slice"):
+                     "issubclass", "format", "divmod", "round", "map", "filter", "property", "staticmethod", "classmethod", "slice",
+                     "globals", "locals", "dir"):
             b[name] = Builtin(name, getattr(self, "bi_" + name))
         b["True"], b["False"], b["None"] = True, False, None
         b["NotImplemented"] = Unknown("NotImplemented")
@@ -258,7 +259,9 @@ class BuiltinsMixin(AccessMixin):
 
     def bi_callable(self, args, kwargs, node, frame):
         v = args[0]
-        if isinstance(v, (FuncVal, BoundMethod, Builtin, ClassVal, EnumVal)):
+        if isinstance(v, (FuncVal, BoundMethod, Builtin, ClassVal, EnumVal, PartialVal)):
+            return True
+        if isinstance(v, Instance) and isinstance(v.cls, ClassVal) and isinstance(v.cls.lookup("__call__")[0], FuncVal):
             return True
         if isinstance(v, (Unknown, SymAny)):
             return self.decide(self.describe_cond(node), node, frame)
@@ -266,7 +269,50 @@ class BuiltinsMixin(AccessMixin):
             return v.cls.lookup("__call__")[0] is not None
         return False
 
+    def namespace_here(self, frame):
+        """the namespace of the code that is running: locals(), vars() without an argument"""
+        if frame.cls_ns is not None:
+            return frame.cls_ns
+        if frame.func is None:
+            return frame.module.env
+        return frame.locals
+
+    def bi_globals(self, args, kwargs, node, frame):
+        return frame.module.env
+
+    def bi_locals(self, args, kwargs, node, frame):
+        return self.namespace_here(frame)
+
+    def bi_dir(self, args, kwargs, node, frame):
+        if not args:
+            return sorted(k for k in self.namespace_here(frame) if isinstance(k, str))
+        v = args[0]
+        if isinstance(v, ModuleVal):
+            d = v.env.get("__dir__")
+            if isinstance(d, FuncVal):
+                r = self.iterate(self.call_function(d, [], {}, node, frame), node, frame)
+                if r is not None:
+                    return sorted(r)
+            return sorted(k for k in v.env if isinstance(k, str))
+        if isinstance(v, ClassVal):
+            names = set()
+            for c in v.mro():
+                if isinstance(c, ClassVal) and not c.builtin:
+                    names.update(k for k in c.attrs if isinstance(k, str))
+                    names.update(k for k in c.injected if isinstance(k, str))
+            return sorted(names)
+        if isinstance(v, Instance) and isinstance(v.cls, ClassVal):
+            d = v.cls.lookup("__dir__")[0]
+            if isinstance(d, FuncVal):
+                r = self.iterate(self.call_function(d, [v], {}, node, frame), node, frame)
+                if r is not None:
+                    return sorted(r)
+            return sorted(set(self.bi_dir([v.cls], {}, node, frame)) | set(k for k in v.attrs if isinstance(k, str)))
+        raise AnalysisError("unmodelled-builtin", "dir() of %s at %s" % (self.kind_of(v), frame.where(node)))
+
     def bi_vars(self, args, kwargs, node, frame):
+        if not args:
+            return self.namespace_here(frame)
         v = args[0]
         if isinstance(v, EnumVal):
             d = dict(v.members)
@@ -277,6 +323,10 @@ class BuiltinsMixin(AccessMixin):
             d.setdefault("__doc__", None)
             return d
         if isinstance(v, ClassVal):
+            if v.injected:
+                d = dict(v.injected)          # (what the metaclass put into the namespace is part of it)
+                d.update(v.attrs)
+                return d
             return v.attrs
         if isinstance(v, Instance):
             return v.attrs
@@ -801,6 +851,30 @@ class BuiltinsMixin(AccessMixin):
             if name == "count":
                 return I.mk("tuple.count", lambda a, k, n, f: sum(1 for x in obj if x is a[0] or I.compare(ast.Eq(), x, a[0], n, f)))
             return None
+        if isinstance(obj, DequeVal) and name in ("appendleft", "extendleft", "popleft", "rotate"):
+            def dq(a, k, n, f):
+                static_guard(obj)
+                if name == "appendleft":
+                    obj.insert(0, a[0])
+                elif name == "extendleft":
+                    items = I.iterate(a[0], n, f)
+                    if items is None:
+                        raise AnalysisError("unmodelled-stdlib", "deque.extendleft over a dynamic iterable at %s" % f.where(n))
+                    for x in items:
+                        obj.insert(0, x)
+                elif name == "popleft":
+                    if not obj:
+                        raise PyRaise(Instance(I.bclasses["IndexError"], ("pop from an empty deque",)), n, f.where(n))
+                    return obj.pop(0)
+                else:
+                    k_ = norm_int(a[0]) if a else 1
+                    if not isinstance(k_, int):
+                        raise AnalysisError("unmodelled-stdlib", "deque.rotate by a dynamic amount at %s" % f.where(n))
+                    if obj:
+                        k_ %= len(obj)
+                        obj[:] = obj[-k_:] + obj[:-k_] if k_ else obj[:]
+                return None
+            return I.mk("deque." + name, dq)
         if isinstance(obj, list):
             if name == "append":
                 def append(a, k, n, f):
@@ -865,6 +939,16 @@ class BuiltinsMixin(AccessMixin):
                 return I.mk("set.add", add)
             if name in ("intersection", "difference"):
                 return I.mk("set." + name, lambda a, k, n, f: getattr(obj, name)(*a) if all(isinstance(x, (set, frozenset)) for x in a) else Unknown(name))
+            if name in ("isdisjoint", "issuperset", "symmetric_difference", "copy"):
+                def setop(a, k, n, f):
+                    others = []
+                    for x in a:
+                        items = x if isinstance(x, (set, frozenset)) else I.iterate(x, n, f)
+                        if items is None or not I.is_static(list(items)) or not I.is_static(list(obj)):
+                            raise AnalysisError("unmodelled-builtin", "set.%s over dynamic members at %s" % (name, f.where(n)))
+                        others.append(set(items))
+                    return getattr(obj, name)(*others)
+                return I.mk("set." + name, setop)
             return None
         if isinstance(obj, KeySet):
             if name == "issubset":
@@ -886,7 +970,8 @@ class BuiltinsMixin(AccessMixin):
                         try:
                             return getattr(obj, name)(*a, **k)
                         except Exception as ex:
-                            raise PyRaise(Instance(I.bclasses["TypeError"], (str(ex),)), n, f.where(n))
+                            ecls = I.bclasses.get(type(ex).__name__) or I.bclasses["TypeError"]      # the error python itself raises
+                            raise PyRaise(Instance(ecls, (str(ex),)), n, f.where(n))
                     if name == "join":
                         return SymStr(("join", obj, I.name_of(a[0])))
                     if name == "format":
